@@ -1,9 +1,12 @@
 package main
 
 import (
+	"bytes"
+	"context"
 	"fmt"
 	"math/rand"
 	"os"
+	"os/exec"
 	"path/filepath"
 	"sort"
 	"strings"
@@ -146,6 +149,7 @@ func clipStr(s string, n int) string {
 }
 
 func runC15(col *Collector, tier string, seed int64) {
+	environmentCases(col)
 	rng := rand.New(rand.NewSource(seed))
 	col.res.Rule = "the real taskctl binary (list; then validate, show <task>, graph <pipeline> when it loads) on documents produced by a grammar of the configuration schema (every documented key) and mutated: " +
 		"every node replaced by null / scalar / list / map of the wrong type (sampled per document), keys deleted / unknown / duplicated, truncation, YAML anchors and merge keys, invalid UTF-8, in YAML, JSON and TOML; " +
@@ -538,4 +542,69 @@ func importShapeCase(col *Collector, shape string) {
 		cs.Impl = "nopanic"
 	}()
 	col.Add(cs)
+}
+
+// the environment the process finds itself in is not the configuration's business: without $HOME (or with one that is
+// empty, a file, a directory that does not exist), and from a working directory that has been removed, loading the
+// same sound configuration ends with a configuration or an error message - and list / show / graph / validate / a run
+// end without a crash
+func environmentCases(col *Collector) {
+	dir := newScratchDir("c15e")
+	defer os.RemoveAll(dir)
+	cfg := filepath.Join(dir, "cfg.yaml")
+	os.WriteFile(cfg, []byte("contexts:\n  c:\n    env: {A: b}\ntasks:\n  t:\n    command: [\"true\"]\n    context: c\n  u:\n    command: [\"true\"]\npipelines:\n  p:\n    - task: t\n    - task: u\n      depends_on: [t]\n"), 0644)
+	os.WriteFile(filepath.Join(dir, "tasks.yaml"), []byte("tasks:\n  t:\n    command: [\"true\"]\n"), 0644)
+	type envShape struct {
+		name string
+		home *string // nil: not set at all
+		gone bool    // started in a directory that is removed before taskctl starts
+	}
+	str := func(s string) *string { return &s }
+	shapes := []envShape{
+		{"no $HOME", nil, false}, {"empty $HOME", str(""), false}, {"$HOME is a file", str(cfg), false},
+		{"$HOME does not exist", str(filepath.Join(dir, "no", "such", "home")), false},
+		{"working directory removed", str(dir), true}, {"no $HOME and working directory removed", nil, true},
+	}
+	cmds := [][]string{{"list"}, {"-c", cfg, "list"}, {"-c", cfg, "validate", cfg}, {"-c", cfg, "show", "t"}, {"-c", cfg, "graph", "p"}, {"-c", cfg, "--output", "raw", "t"}, {"-c", cfg, "--output", "raw", "p"}, {"-c", "cfg.yaml", "list"}}
+	for _, sh := range shapes {
+		for _, args := range cmds {
+			cs := Case{Tags: []string{"environment", sh.name}, NonTrivial: true, Replay: fmt.Sprintf("taskctl %s in the environment: %s", strings.Join(args, " "), sh.name)}
+			ctx, cancel := context.WithTimeout(context.Background(), 8*time.Second)
+			var cmd *exec.Cmd
+			if sh.gone {
+				gone := filepath.Join(dir, fmt.Sprintf("gone-%d", time.Now().UnixNano()))
+				os.MkdirAll(gone, 0755)
+				script := "rmdir \"$1\"; shift; exec \"$@\""
+				cmd = exec.CommandContext(ctx, "sh", append([]string{"-c", script, "sh", gone, taskctlBin()}, args...)...)
+				cmd.Dir = gone
+			} else {
+				cmd = exec.CommandContext(ctx, taskctlBin(), args...)
+				cmd.Dir = dir
+			}
+			cmd.Env = append([]string{"PATH=" + os.Getenv("PATH"), "TERM=dumb"}, covEnv()...)
+			if sh.home != nil {
+				cmd.Env = append(cmd.Env, "HOME="+*sh.home)
+			}
+			var se bytes.Buffer
+			cmd.Stderr = &se
+			err := cmd.Run()
+			exit := 0
+			if ee, ok := err.(*exec.ExitError); ok {
+				exit = ee.ExitCode()
+			} else if err != nil {
+				exit = -1
+			}
+			timedOut := ctx.Err() != nil
+			cancel()
+			cs.Impl = fmt.Sprintf("exit=%d", exit)
+			panicked := strings.Contains(se.String(), "panic:") || strings.Contains(se.String(), "fatal error:") || strings.Contains(se.String(), "goroutine 1 [")
+			switch {
+			case timedOut:
+				cs.Fail, cs.Sig = "did not end within 8s", "c15-hang"
+			case panicked || (exit != 0 && exit != 1):
+				cs.Fail, cs.Sig = fmt.Sprintf("exit=%d: %s", exit, clipStr(firstPanicLine(se.String()), 200)), "c15-crash"
+			}
+			col.Add(cs)
+		}
+	}
 }
